@@ -68,6 +68,9 @@ CLAIMED.update({
     'C19': ('write_syx_file -> read_syx_file on lists of messages of symbolically chosen kinds with symbolic sysex data, binary and '
             'plain text (hex rendering/parsing abstracted as an inverse pair so every byte value is covered at once), white-space '
             'layouts, interleaved other messages, corrupt texts, on an in-memory file system double.', '4/C19'),
+    'C20': ('The real Backend/set_backend run against recording doubles of importlib, os.environ and a backend module over the full '
+            'finite configuration grid, every point a solver-certified fork, and are compared with a reference resolver of the '
+            "property's precedence rules (lazy single import, name/api/env precedence, constructor arguments, name listings).", '4/C20'),
 })
 
 PENDING = {}     # id -> reason (not claimed)
